@@ -109,6 +109,24 @@ def f2(ctx):
             # advance: the latch edge that updates `current` from `next` lies on the comparator's false edge
             names = search_roles(b, res)     # by type and data flow, not by source name
             cur = names.get("current")
+            # the protocol's constants, named in the source or used as match patterns (then only their numbers are left): a constant is the tail offset when
+            # it is compared with the cached next-offset half, the removal mark when it is compared with the cached size half
+            def half(x, role, tg_):
+                if isinstance(x, Lin) and x.c == 0 and len(x.m) == 1 and list(x.m.values()) == [1]:
+                    x = list(x.m)[0]
+                return tag(x) == tg_ or (tag(x) == "phi" and len(x) >= 3 and x[2] == names.get(role))
+            def is_tail_cmp(f):
+                if f[0] != "cmp" or f[1] != "Eq":
+                    return False
+                if any(tag(x) == "named" and x[1] == "SENTINEL_SEGMENT_NODE_OFFSET" for x in (f[2], f[3])):
+                    return True
+                return any(is_const(x) and as_lin(x).c == 2**32 - 1 and half(y, "next_offset", "lo") for x, y in ((f[2], f[3]), (f[3], f[2])))
+            def is_removed_cmp(f):
+                if f[0] != "cmp" or f[1] != "Eq":
+                    return False
+                if is_removed(f[2]) or is_removed(f[3]):
+                    return True
+                return any(is_const(x) and as_lin(x).c == 0 and half(y, "current_node_size", "hi") for x, y in ((f[2], f[3]), (f[3], f[2])))
             backs = b.back_edges()
             adv = 0
             okadv = True
@@ -118,7 +136,7 @@ def f2(ctx):
                     gs = ev.guards(res, u)
                     fs = implied_facts(gs)
                     by_check_false = ("bool", chk, False) in fs
-                    by_removed = any(f[0] == "cmp" and f[1] == "Eq" and (is_removed(f[2]) or is_removed(f[3])) for f in fs)
+                    by_removed = any(is_removed_cmp(f) for f in fs)
                     adv += 1
                     okadv = okadv and (by_check_false or by_removed)
             yield Ob(key_of("C10-F2", b.path, "advance-on-reject"), adv >= 1 and okadv, "`current` moves forward only past a rejected (or removed) node (%d advancing back edge(s))" % adv, b.loc())
@@ -133,7 +151,7 @@ def f2(ctx):
                         continue
                 n += 1
                 fs = implied_facts(ev.guards(res, r["bb"]))
-                is_tail = lambda f: f[0] == "cmp" and f[1] == "Eq" and any(tag(x) == "named" and x[1] == "SENTINEL_SEGMENT_NODE_OFFSET" for x in (f[2], f[3]))
+                is_tail = is_tail_cmp
                 accepted = ("bool", chk, True) in fs
                 tail = any(is_tail(f) for f in fs)
                 ok = accepted or (name == "find_position" and tail)
